@@ -27,6 +27,7 @@ DECIDES = (
     "of the three sides meeting at each of the 8 corners (C05.CORNER-PATCHES)."
     ' the coincidence tests are purely absolute (no numpy isclose/allclose relative part), against TOL, on a non-negative quantity, strict (C05.TOLERANCE-SIBLINGS); clear()/backport() keep the merged pairs the slave-duplicate exception rests on (C05.USER-STATE-SURVIVES = C12.CLEAR-COMPLETE).'
     ' No lazily cached slave-patch set survives a later merge (C05.NO-STALE-CACHE).'
+    ' PatchList.merge keeps the roles the caller gave for names in either alphabetical order (C05.MERGE-ROLES); a vertex re-used for several corners carries the projections of all of them, each once, whatever the order (part of C05.ADD-SCENARIOS).'
 )
 NOT_DECIDED = "geometric coincidence itself and independence from insertion order for arbitrary point sets."
 ASSUMPTIONS = []
